@@ -69,7 +69,7 @@ func forwardDerived(root *ssa.Function, seeds []ssa.Value, throughCall func(c *s
 					}
 				case *ssa.UnOp:
 					if x.Op == token.MUL || x.Op == token.ARROW {
-						if der[x.X] || cells[cellRoot(x.X)] {
+						if der[x.X] || cells[cellRoot(x.X)] || cells[addrRoot(x.X)] {
 							mark(x)
 						}
 					} else if der[x.X] {
@@ -115,7 +115,7 @@ func forwardDerived(root *ssa.Function, seeds []ssa.Value, throughCall func(c *s
 					}
 				case *ssa.Store:
 					if der[x.Val] {
-						c := cellRoot(x.Addr)
+						c := addrRoot(x.Addr)
 						switch c.(type) {
 						case *ssa.Alloc:
 							if !cells[c] {
@@ -211,9 +211,9 @@ func backwardSlice(v ssa.Value, throughCall func(c *ssa.CallCommon) bool, stop f
 		case *ssa.UnOp:
 			rec(x.X)
 			if x.Op == token.MUL {
-				c := cellRoot(x.X)
+				c := addrRoot(x.X)
 				if _, ok := c.(*ssa.Alloc); ok {
-					for _, st := range storesToCell(c) {
+					for _, st := range storesIntoCell(c) {
 						rec(st.Val)
 					}
 				}
@@ -258,4 +258,46 @@ func backwardSlice(v ssa.Value, throughCall func(c *ssa.CallCommon) bool, stop f
 	}
 	rec(v)
 	return seen
+}
+
+// addrRoot peels field/index address computations and free-variable indirections down to the storage root.
+func addrRoot(v ssa.Value) ssa.Value {
+	for i := 0; i < 30; i++ {
+		switch x := v.(type) {
+		case *ssa.FieldAddr:
+			v = x.X
+		case *ssa.IndexAddr:
+			v = x.X
+		case *ssa.FreeVar:
+			b := bindingOf(x)
+			if b == nil {
+				return v
+			}
+			v = b
+		default:
+			return v
+		}
+	}
+	return v
+}
+
+// storesIntoCell: stores whose address is the cell itself or a field/element address inside it.
+func storesIntoCell(cell ssa.Value) []*ssa.Store {
+	cell = addrRoot(cell)
+	var owner *ssa.Function
+	switch c := cell.(type) {
+	case *ssa.Alloc:
+		owner = c.Parent()
+	default:
+		return nil
+	}
+	var out []*ssa.Store
+	for _, f := range withClosures(rootFn(owner)) {
+		eachInstr(f, func(in ssa.Instruction) {
+			if st, ok := in.(*ssa.Store); ok && addrRoot(st.Addr) == cell {
+				out = append(out, st)
+			}
+		})
+	}
+	return out
 }
